@@ -2,6 +2,9 @@
 import importlib
 
 GROUPS = {
+    "C19": "chaos",
+    "C17": "fallback",
+    "C11": "coalesce",
     "C14": "backoff",
     "C16": "reconnect",
     "C12": "hedge",
